@@ -110,7 +110,15 @@ def resolve_fault(f, ref):
         n = ref.get('entries') or 0
         if n <= 0:
             return None
-        out = {'kind': 'F5', 'mode': 'nth', 'n': min(n, 1 + int(f.get('frac', 0.0) * n))}
+        if 'n_abs' in f:        # exhaustive placement: this very entry (beyond the last one: does not fire)
+            at = int(f['n_abs'])
+        elif 'n_end' in f:      # ... counted from the last entry of the reference run
+            at = max(1, n - int(f['n_end']))
+        elif 'n_frac' in f:
+            at = min(n, 1 + int(f['n_frac'] * n))
+        else:
+            at = min(n, 1 + int(f.get('frac', 0.0) * n))
+        out = {'kind': 'F5', 'mode': 'nth', 'n': at}
         if f.get('exc'):
             out['exc'] = f['exc']
         return out
